@@ -61,6 +61,27 @@ mod verif_kani_ffi_par {
 
     const CANARY: u32 = 0xA5A5_5A5A;
 
+    // Kani 0.68 does not model the *contents* written by ptr::write_bytes / ptr::copy_nonoverlapping when the count is
+    // not a constant (measured: both leave the destination unconstrained).  They are stubbed by element loops with the
+    // documented semantics; CBMC's pointer checks apply to every access of the loops, so out-of-bounds source reads and
+    // destination writes are still reported.  (assumption: these two stubs = the std functions)
+    unsafe fn stub_write_bytes<T>(dst: *mut T, val: u8, count: usize) {
+        let p = dst as *mut u8;
+        let n = count * core::mem::size_of::<T>();
+        let mut i = 0;
+        while i < n {
+            *p.add(i) = val;
+            i += 1;
+        }
+    }
+    unsafe fn stub_copy_nonoverlapping<T>(src: *const T, dst: *mut T, count: usize) {
+        let mut i = 0;
+        while i < count {
+            *dst.add(i) = core::ptr::read(src.add(i));
+            i += 1;
+        }
+    }
+
     /// W = number of words of the engine's mask (= ceil((vocab+1)/32), as produced by alloc_token_set),
     /// K = mask_byte_len / 4 = words in the caller's buffer (concrete per harness: Kani 0.68 havocs
     /// `write_bytes` with a symbolic count); the buffer is followed by one canary word.
@@ -123,6 +144,8 @@ mod verif_kani_ffi_par {
         ($name:ident, $w:expr, $k:expr, $unw:expr) => {
             #[kani::proof]
             #[kani::unwind($unw)]
+            #[kani::stub(std::ptr::write_bytes, stub_write_bytes)]
+            #[kani::stub(std::ptr::copy_nonoverlapping, stub_copy_nonoverlapping)]
             fn $name() {
                 run::<$w, $k, { $k + 1 }>();
             }
@@ -144,6 +167,8 @@ mod verif_kani_ffi_par {
     // vacuity guard: must FAIL (claims the EOS bit is never added)
     #[kani::proof]
     #[kani::unwind(34)]
+    #[kani::stub(std::ptr::write_bytes, stub_write_bytes)]
+    #[kani::stub(std::ptr::copy_nonoverlapping, stub_copy_nonoverlapping)]
     fn mustfail_par_copy_no_eos() {
         let mut m = SimpleVob::alloc_with_capacity(20, 32);
         let eos: u32 = kani::any();
